@@ -43,6 +43,16 @@ impl EdwardsProjective {
     pub fn into_affine(self) -> (r: EdwardsAffine) ensures r == of_aff(to_affine(repr(self))) { unimplemented!() }
     #[verifier::external_body]
     pub fn double(&self) -> (r: EdwardsProjective) ensures repr(r) == te_double(repr(*self)) { unimplemented!() }
+    // CurveGroup::normalize_batch / ScalarMul::batch_convert_to_mul_base of ark-ec's twisted Edwards Projective: batch
+    // inversion of the Z coordinates, element-wise equal to into_affine
+    #[verifier::external_body]
+    pub fn normalize_batch(v: &[EdwardsProjective]) -> (r: Vec<EdwardsAffine>)
+        ensures r@.len() == v@.len(), forall|k: int| 0 <= k < v@.len() ==> #[trigger] r@[k] == of_aff(to_affine(repr(v@[k])))
+    { unimplemented!() }
+    #[verifier::external_body]
+    pub fn batch_convert_to_mul_base(v: &[EdwardsProjective]) -> (r: Vec<EdwardsAffine>)
+        ensures r@.len() == v@.len(), forall|k: int| 0 <= k < v@.len() ==> #[trigger] r@[k] == of_aff(to_affine(repr(v@[k])))
+    { unimplemented!() }
     #[verifier::external_body]
     pub fn mul_bigint_slice(&self, other: &[u64]) -> (r: EdwardsProjective)
         ensures repr(r) == ark_mul(limbs_val(other@), repr(*self))
